@@ -14,6 +14,17 @@
    plus ONE decidable side condition `ec_sideb g = true` (G on the curve, reduced, finite; p = 3 mod 4; n odd;
    n <= 2^bit_count), which is discharged by vm_compute for secp256k1 on the table regenerated from /repo
    (Gen/GenCurves.v) and for the toy generator.  M3 (Fermat) is no longer a premise: it is derived from M1.
+   ALL FOUR are now theorems for the SHIPPED secp256k1 and secp256r1 generators (C01c_secp256k1_premises_proved,
+   C01c_secp256r1_premises_proved):
+     M1, M2     kernel-checked Pocklington certificates (Proofs/Pocklington.v, CurvePrimes.v, CurvePrimesEc.v)
+     M4         associativity is PROVED for every non-singular curve over F_p, p an odd prime (Proofs/EcAssoc*.v)
+     n*G = O    a double-and-add of n*G with the model's Curve.add formulas, its ~430 modular inverses supplied as hints and
+                each re-checked (Proofs/OrderCert.v, CurveOrderK1.v, CurveOrderR1.v, ShippedOrder.v)
+   so the theorems `C01c_secp256k1_*_unconditional` / `C01c_secp256r1_*_unconditional` have NO hypothesis at all (their
+   quantified gen_k / hmac / hlen are arbitrary functions, not assumptions).  For an arbitrary generator the hypothesis M4 of the
+   general section follows from M1, the side condition and the decidable `nonsingularb` (C01c_M4_from_nonsingular); M1, M2 and
+   n*G = O remain hypotheses there (all three decidable; n*G = O checkable by certificate, Props/C02.v
+   C02_order_certificate_sound).  The general sections (premises as hypotheses) are kept.
    C01c_ops_are_C02 states that the abstract operations ARE C02's functions (each returns `Ret` of the operation's pair;
    `smul e G` is also what the blinded fixed-base Generator.__mul__ returns), C01c_ops_are_group_law that they are the
    textbook operations.
@@ -27,7 +38,7 @@
 From Coq Require Import ZArith List Znumtheory.
 From PV Require Import Base.Bytes Base.Outcome Gen.GenCurves Gen.GenCurvesC01 Model.Curve Model.Ecdsa Model.Rfc6979
   Spec.Weierstrass Spec.EcdsaSpec Spec.Rfc6979Spec Proofs.CurveAddP Proofs.CurveP
-  Proofs.ComposeEcInst Proofs.ComposeEcC01 Proofs.ComposeEcWitness Proofs.ComposeEcInv Props.C01.
+  Proofs.ComposeEcInst Proofs.ComposeEcC01 Proofs.ComposeEcWitness Proofs.ComposeEcInv Proofs.ShippedUncond Proofs.ComposeEcShipped Props.C01.
 Import ListNotations.
 Local Open Scope Z_scope.
 
@@ -166,8 +177,16 @@ Print Assumptions C01c_recover_signer.
 Print Assumptions C01c_sign_is_rfc6979.
 Print Assumptions C01c_sign_never_raises.
 
+(* the hypothesis M4 of the section above is implied by M1, the side condition (p = 3 mod 4, so p <> 2) and the decidable
+   non-singularity 4a^3 + 27b^2 <> 0 (mod p): associativity is a theorem (Proofs/EcAssoc.v) *)
+Theorem C01c_M4_from_nonsingular : forall g : gen,
+  M1 (gc g) -> ec_sideb g = true -> nonsingularb (gc g) = true -> M4 (gc g).
+Proof. exact ec_M4. Qed.
+Print Assumptions C01c_M4_from_nonsingular.
+
 (* ---- secp256k1 as shipped (Gen/GenCurves.v, regenerated from /repo), any blinding factor: the side condition is
-        decided by computation; the hypotheses are exactly M1, M4, n*G = O, M2 ------------------------------------- *)
+        decided by computation; the hypotheses of THIS section are exactly M1, M4, n*G = O, M2 (general form, kept);
+        the section Secp256k1_proved below proves all four: nothing is assumed there ----------------------------- *)
 Theorem C01c_secp256k1_side_conditions : forall blind : Z,
   ec_sideb (secp256k1_gen blind) = true /\
   secp256k1_gen blind = shipped_gen (secp256k1_params, secp256k1_bits) blind /\      (* the generator of Props/C02.v *)
@@ -239,6 +258,196 @@ Print Assumptions C01c_secp256k1_recover_sound.
 Print Assumptions C01c_secp256k1_recover_complete.
 Print Assumptions C01c_secp256k1_sign_is_rfc6979.
 Print Assumptions C01c_secp256k1_ops_are_C02.
+
+(* ---- secp256k1 as shipped, any blinding factor, with M1, M2, M4 and n*G = O PROVED (kernel-checked Pocklington certificates for
+        p and n; M4 by Proofs/EcAssoc.v; n*G = O through a checked double-and-add certificate): NO hypothesis is left ---------- *)
+Theorem C01c_secp256k1_premises_proved :
+  prime secp256k1_p /\ prime secp256k1_n /\ M4 secp256k1_curve /\ kP secp256k1_curve secp256k1_n secp256k1_G = None /\
+  forall blind : Z, ec_sideb (secp256k1_gen blind) = true /\ secp256k1_gen blind = shipped_gen (secp256k1_params, secp256k1_bits) blind.
+Proof. exact (conj secp256k1_M1 (conj secp256k1_M2 (conj secp256k1_M4 (conj secp256k1_nG_proved (fun blind => conj (secp256k1_side blind) (secp256k1_gen_is_shipped blind)))))). Qed.
+Print Assumptions C01c_secp256k1_premises_proved.
+
+Section Secp256k1_proved.
+  Variable blind : Z.
+  Variable gen_k : Z -> Z -> Z -> outcome Z.
+  Variable hmac : bytes -> bytes -> bytes.
+  Variable hlen : nat.
+  Local Notation g := (secp256k1_gen blind).
+  Local Notation c := secp256k1_curve.
+  Local Notation n := secp256k1_n.
+  Local Notation p := secp256k1_p.
+  Local Notation G := (eG g).
+  Local Notation verify := (Ecdsa.verify (ept c) (eadd c) (esmul c) G n ecoords).
+  Local Notation sign_with_recid := (Ecdsa.sign_with_recid (ept c) (esmul c) G n ecoords).
+  Local Notation recover := (Ecdsa.recover (ept c) (eadd c) (esmul c) G n p (elift g)).
+
+  Theorem C01c_secp256k1_group_laws_unconditional : group_laws (ept c) (eadd c) (eneg c) (eO c) (esmul c) n ecoords.
+  Proof. exact (C01c_group_laws g secp256k1_M1 secp256k1_M4 secp256k1_M2 (secp256k1_side blind)). Qed.
+
+  Theorem C01c_secp256k1_lift_laws_unconditional : lift_laws (ept c) ecoords (elift g) (fun x => 0 <= x < p).
+  Proof. exact (C01c_lift_laws g secp256k1_M1 secp256k1_M4 (secp256k1_side blind)). Qed.
+
+  Theorem C01c_secp256k1_sign_verifies_unconditional : eval G = secp256k1_G /\ forall (fuel : nat) (d z r s recid : Z),
+    sign_with_recid gen_k fuel d z = Ret (r, s, recid) ->
+    1 <= r < n /\ 1 <= s < n /\ 0 <= recid < 4 /\ verify (Some (esmul c d G)) z r s = Ret true.
+  Proof. exact (C01c_sign_verifies g gen_k secp256k1_M1 secp256k1_M4 secp256k1_nG_proved secp256k1_M2 (secp256k1_side blind)). Qed.
+
+  Theorem C01c_secp256k1_verify_iff_unconditional : eval G = secp256k1_G /\ forall (Q : ept c) (z r s : Z),
+    verify (Some Q) z r s = Ret true <-> z <> 0 /\ ecdsa_valid (ept c) (eadd c) (esmul c) G n ecoords Q z r s.
+  Proof. exact (C01c_verify_iff g secp256k1_M1 secp256k1_M4 secp256k1_nG_proved secp256k1_M2 (secp256k1_side blind)). Qed.
+
+  Theorem C01c_secp256k1_recover_sound_unconditional : eval G = secp256k1_G /\ forall (z r s : Z) (y_parity : option Z) (l : list (ept c)) (Q : ept c),
+    z <> 0 -> recover z r s y_parity = Ret l -> In Q l -> verify (Some Q) z r s = Ret true.
+  Proof. exact (C01c_recover_sound g secp256k1_M1 secp256k1_M4 secp256k1_nG_proved secp256k1_M2 (secp256k1_side blind)). Qed.
+
+  Theorem C01c_secp256k1_recover_complete_unconditional : eval G = secp256k1_G /\ forall (Q : ept c) (z r s w y : Z),
+    z <> 0 -> 1 <= r < n -> 1 <= s < n -> (s * w) mod n = 1 ->
+    ecoords (eadd c (esmul c (z * w) G) (esmul c (r * w) Q)) = Some (r, y) ->
+    (exists l, recover z r s None = Ret l /\ In Q l) /\
+    (forall yp, Z.odd yp = Z.odd y -> recover z r s (Some yp) = Ret [Q]).
+  Proof. exact (C01c_recover_complete g secp256k1_M1 secp256k1_M4 secp256k1_nG_proved secp256k1_M2 (secp256k1_side blind)). Qed.
+
+  Theorem C01c_secp256k1_recover_signer_unconditional : eval G = secp256k1_G /\ forall (fuel : nat) (d z r s recid : Z),
+    sign_with_recid gen_k fuel d z = Ret (r, s, recid) -> recid < 2 ->
+    recover z r s (Some recid) = Ret [esmul c d G] /\
+    exists l, recover z r s None = Ret l /\ In (esmul c d G) l.
+  Proof. exact (C01c_recover_signer g gen_k secp256k1_M1 secp256k1_M4 secp256k1_nG_proved secp256k1_M2 (secp256k1_side blind)). Qed.
+
+  Theorem C01c_secp256k1_sign_is_rfc6979_unconditional : eval G = secp256k1_G /\ forall (kfuel : nat) (d z k x y : Z),
+    0 <= d < n -> 0 < z < 256 ^ Z.of_nat hlen ->
+    rfc6979_k hmac n kfuel d (int_to_octets hlen z) = Some k ->
+    ecoords (esmul c k G) = Some (x, y) -> x mod n <> 0 -> (z + (x mod n) * d) mod n <> 0 ->
+    forall fuel, exists s recid,
+      sign_with_recid (deterministic_generate_k hmac hlen kfuel) (S fuel) d z = Ret (x mod n, s, recid) /\
+      1 <= s < n /\ (s * k) mod n = (z + (x mod n) * d) mod n.
+  Proof. exact (C01c_sign_is_rfc6979 g hmac hlen secp256k1_M1 secp256k1_M4 secp256k1_nG_proved secp256k1_M2 (secp256k1_side blind)). Qed.
+
+  Theorem C01c_secp256k1_sign_never_raises_unconditional : forall (kfuel fuel : nat) (d z : Z) (e : pyexn),
+    0 <= d < n -> 0 < z < 256 ^ Z.of_nat hlen ->
+    sign_with_recid (deterministic_generate_k hmac hlen kfuel) fuel d z <> Raise e.
+  Proof. exact (C01c_sign_never_raises g hmac hlen secp256k1_M1 secp256k1_M4 secp256k1_nG_proved secp256k1_M2 (secp256k1_side blind)). Qed.
+
+  (* the operations of these statements are pycoin's functions on secp256k1, and the textbook group operations *)
+  Theorem C01c_secp256k1_ops_are_C02_unconditional :
+    (forall P Q : ept c, Curve.add c (eval P) (eval Q) = Ret (eval (eadd c P Q))) /\
+    (forall P : ept c, Curve.neg c (eval P) = Ret (eval (eneg c P))) /\
+    (forall (e : Z) (P : ept c), multiply c (eval P) e = Ret (eval (esmul c e P))) /\
+    (forall e : Z, gmul g e = Ret (eval (esmul c e G)) /\ raw_mul g e = Ret (eval (esmul c e G))) /\
+    eval G = secp256k1_G /\ eval (eO c) = None.
+  Proof. exact (C01c_ops_are_C02 g secp256k1_M1 secp256k1_M4 secp256k1_nG_proved secp256k1_M2 (secp256k1_side blind)). Qed.
+
+  Theorem C01c_secp256k1_ops_are_group_law_unconditional :
+    (forall P Q : ept c, eval (eadd c P Q) = gadd c (eval P) (eval Q)) /\
+    (forall P : ept c, eval (eneg c P) = gneg c (eval P)) /\
+    (forall (e : Z) (P : ept c), eval (esmul c e P) = kP c e (eval P)).
+  Proof. exact (C01c_ops_are_group_law g secp256k1_M1 secp256k1_M4 secp256k1_M2 (secp256k1_side blind)). Qed.
+End Secp256k1_proved.
+Print Assumptions C01c_secp256k1_group_laws_unconditional.
+Print Assumptions C01c_secp256k1_lift_laws_unconditional.
+Print Assumptions C01c_secp256k1_sign_verifies_unconditional.
+Print Assumptions C01c_secp256k1_verify_iff_unconditional.
+Print Assumptions C01c_secp256k1_recover_sound_unconditional.
+Print Assumptions C01c_secp256k1_recover_complete_unconditional.
+Print Assumptions C01c_secp256k1_recover_signer_unconditional.
+Print Assumptions C01c_secp256k1_sign_is_rfc6979_unconditional.
+Print Assumptions C01c_secp256k1_sign_never_raises_unconditional.
+Print Assumptions C01c_secp256k1_ops_are_C02_unconditional.
+Print Assumptions C01c_secp256k1_ops_are_group_law_unconditional.
+
+(* ---- secp256r1 as shipped, any blinding factor, with M1, M2, M4 and n*G = O PROVED (kernel-checked Pocklington certificates for
+        p and n; M4 by Proofs/EcAssoc.v; n*G = O through a checked double-and-add certificate): NO hypothesis is left ---------- *)
+Theorem C01c_secp256r1_premises_proved :
+  prime secp256r1_p /\ prime secp256r1_n /\ M4 secp256r1_curve /\ kP secp256r1_curve secp256r1_n secp256r1_G = None /\
+  forall blind : Z, ec_sideb (secp256r1_gen blind) = true /\ secp256r1_gen blind = shipped_gen (secp256r1_params, secp256r1_bits) blind.
+Proof. exact (conj secp256r1_M1 (conj secp256r1_M2 (conj secp256r1_M4 (conj secp256r1_nG_proved (fun blind => conj (secp256r1_side blind) (secp256r1_gen_is_shipped blind)))))). Qed.
+Print Assumptions C01c_secp256r1_premises_proved.
+
+Section Secp256r1_proved.
+  Variable blind : Z.
+  Variable gen_k : Z -> Z -> Z -> outcome Z.
+  Variable hmac : bytes -> bytes -> bytes.
+  Variable hlen : nat.
+  Local Notation g := (secp256r1_gen blind).
+  Local Notation c := secp256r1_curve.
+  Local Notation n := secp256r1_n.
+  Local Notation p := secp256r1_p.
+  Local Notation G := (eG g).
+  Local Notation verify := (Ecdsa.verify (ept c) (eadd c) (esmul c) G n ecoords).
+  Local Notation sign_with_recid := (Ecdsa.sign_with_recid (ept c) (esmul c) G n ecoords).
+  Local Notation recover := (Ecdsa.recover (ept c) (eadd c) (esmul c) G n p (elift g)).
+
+  Theorem C01c_secp256r1_group_laws_unconditional : group_laws (ept c) (eadd c) (eneg c) (eO c) (esmul c) n ecoords.
+  Proof. exact (C01c_group_laws g secp256r1_M1 secp256r1_M4 secp256r1_M2 (secp256r1_side blind)). Qed.
+
+  Theorem C01c_secp256r1_lift_laws_unconditional : lift_laws (ept c) ecoords (elift g) (fun x => 0 <= x < p).
+  Proof. exact (C01c_lift_laws g secp256r1_M1 secp256r1_M4 (secp256r1_side blind)). Qed.
+
+  Theorem C01c_secp256r1_sign_verifies_unconditional : eval G = secp256r1_G /\ forall (fuel : nat) (d z r s recid : Z),
+    sign_with_recid gen_k fuel d z = Ret (r, s, recid) ->
+    1 <= r < n /\ 1 <= s < n /\ 0 <= recid < 4 /\ verify (Some (esmul c d G)) z r s = Ret true.
+  Proof. exact (C01c_sign_verifies g gen_k secp256r1_M1 secp256r1_M4 secp256r1_nG_proved secp256r1_M2 (secp256r1_side blind)). Qed.
+
+  Theorem C01c_secp256r1_verify_iff_unconditional : eval G = secp256r1_G /\ forall (Q : ept c) (z r s : Z),
+    verify (Some Q) z r s = Ret true <-> z <> 0 /\ ecdsa_valid (ept c) (eadd c) (esmul c) G n ecoords Q z r s.
+  Proof. exact (C01c_verify_iff g secp256r1_M1 secp256r1_M4 secp256r1_nG_proved secp256r1_M2 (secp256r1_side blind)). Qed.
+
+  Theorem C01c_secp256r1_recover_sound_unconditional : eval G = secp256r1_G /\ forall (z r s : Z) (y_parity : option Z) (l : list (ept c)) (Q : ept c),
+    z <> 0 -> recover z r s y_parity = Ret l -> In Q l -> verify (Some Q) z r s = Ret true.
+  Proof. exact (C01c_recover_sound g secp256r1_M1 secp256r1_M4 secp256r1_nG_proved secp256r1_M2 (secp256r1_side blind)). Qed.
+
+  Theorem C01c_secp256r1_recover_complete_unconditional : eval G = secp256r1_G /\ forall (Q : ept c) (z r s w y : Z),
+    z <> 0 -> 1 <= r < n -> 1 <= s < n -> (s * w) mod n = 1 ->
+    ecoords (eadd c (esmul c (z * w) G) (esmul c (r * w) Q)) = Some (r, y) ->
+    (exists l, recover z r s None = Ret l /\ In Q l) /\
+    (forall yp, Z.odd yp = Z.odd y -> recover z r s (Some yp) = Ret [Q]).
+  Proof. exact (C01c_recover_complete g secp256r1_M1 secp256r1_M4 secp256r1_nG_proved secp256r1_M2 (secp256r1_side blind)). Qed.
+
+  Theorem C01c_secp256r1_recover_signer_unconditional : eval G = secp256r1_G /\ forall (fuel : nat) (d z r s recid : Z),
+    sign_with_recid gen_k fuel d z = Ret (r, s, recid) -> recid < 2 ->
+    recover z r s (Some recid) = Ret [esmul c d G] /\
+    exists l, recover z r s None = Ret l /\ In (esmul c d G) l.
+  Proof. exact (C01c_recover_signer g gen_k secp256r1_M1 secp256r1_M4 secp256r1_nG_proved secp256r1_M2 (secp256r1_side blind)). Qed.
+
+  Theorem C01c_secp256r1_sign_is_rfc6979_unconditional : eval G = secp256r1_G /\ forall (kfuel : nat) (d z k x y : Z),
+    0 <= d < n -> 0 < z < 256 ^ Z.of_nat hlen ->
+    rfc6979_k hmac n kfuel d (int_to_octets hlen z) = Some k ->
+    ecoords (esmul c k G) = Some (x, y) -> x mod n <> 0 -> (z + (x mod n) * d) mod n <> 0 ->
+    forall fuel, exists s recid,
+      sign_with_recid (deterministic_generate_k hmac hlen kfuel) (S fuel) d z = Ret (x mod n, s, recid) /\
+      1 <= s < n /\ (s * k) mod n = (z + (x mod n) * d) mod n.
+  Proof. exact (C01c_sign_is_rfc6979 g hmac hlen secp256r1_M1 secp256r1_M4 secp256r1_nG_proved secp256r1_M2 (secp256r1_side blind)). Qed.
+
+  Theorem C01c_secp256r1_sign_never_raises_unconditional : forall (kfuel fuel : nat) (d z : Z) (e : pyexn),
+    0 <= d < n -> 0 < z < 256 ^ Z.of_nat hlen ->
+    sign_with_recid (deterministic_generate_k hmac hlen kfuel) fuel d z <> Raise e.
+  Proof. exact (C01c_sign_never_raises g hmac hlen secp256r1_M1 secp256r1_M4 secp256r1_nG_proved secp256r1_M2 (secp256r1_side blind)). Qed.
+
+  (* the operations of these statements are pycoin's functions on secp256r1, and the textbook group operations *)
+  Theorem C01c_secp256r1_ops_are_C02_unconditional :
+    (forall P Q : ept c, Curve.add c (eval P) (eval Q) = Ret (eval (eadd c P Q))) /\
+    (forall P : ept c, Curve.neg c (eval P) = Ret (eval (eneg c P))) /\
+    (forall (e : Z) (P : ept c), multiply c (eval P) e = Ret (eval (esmul c e P))) /\
+    (forall e : Z, gmul g e = Ret (eval (esmul c e G)) /\ raw_mul g e = Ret (eval (esmul c e G))) /\
+    eval G = secp256r1_G /\ eval (eO c) = None.
+  Proof. exact (C01c_ops_are_C02 g secp256r1_M1 secp256r1_M4 secp256r1_nG_proved secp256r1_M2 (secp256r1_side blind)). Qed.
+
+  Theorem C01c_secp256r1_ops_are_group_law_unconditional :
+    (forall P Q : ept c, eval (eadd c P Q) = gadd c (eval P) (eval Q)) /\
+    (forall P : ept c, eval (eneg c P) = gneg c (eval P)) /\
+    (forall (e : Z) (P : ept c), eval (esmul c e P) = kP c e (eval P)).
+  Proof. exact (C01c_ops_are_group_law g secp256r1_M1 secp256r1_M4 secp256r1_M2 (secp256r1_side blind)). Qed.
+End Secp256r1_proved.
+Print Assumptions C01c_secp256r1_group_laws_unconditional.
+Print Assumptions C01c_secp256r1_lift_laws_unconditional.
+Print Assumptions C01c_secp256r1_sign_verifies_unconditional.
+Print Assumptions C01c_secp256r1_verify_iff_unconditional.
+Print Assumptions C01c_secp256r1_recover_sound_unconditional.
+Print Assumptions C01c_secp256r1_recover_complete_unconditional.
+Print Assumptions C01c_secp256r1_recover_signer_unconditional.
+Print Assumptions C01c_secp256r1_sign_is_rfc6979_unconditional.
+Print Assumptions C01c_secp256r1_sign_never_raises_unconditional.
+Print Assumptions C01c_secp256r1_ops_are_C02_unconditional.
+Print Assumptions C01c_secp256r1_ops_are_group_law_unconditional.
 
 (* ---- non-vacuity: y^2 = x^3 + 7 over F_43, G = (2, 12), n = 31, any blinding factor.  M1, M4, n*G = O, M2 and the
         side condition are all decided by vm_compute: NO hypothesis is left ------------------------------------------ *)
